@@ -428,3 +428,146 @@ pub fn check_c14_eof(v: &View) -> Findings {
     }
     f
 }
+
+// ---------------------------------------------------------------------------------------------
+// end-of-input conservation (C14 end-of-input row, for every execution)
+
+/// What the end-of-input unwinding owes for one pending mode.
+enum Owed {
+    Tok(String, String),
+    StrExprEnd,
+    Err(String),
+}
+
+fn owed_for_mode(mode: &str, out: &mut Vec<Owed>) {
+    if let Some(rest) = mode.strip_prefix("ExpectSymbol(") {
+        let inner = rest.trim_end_matches(')');
+        let mut it = inner.split(", ");
+        let ty = it.next().unwrap_or("").to_string();
+        let ch = it.next().unwrap_or("").to_string();
+        let kind = match ty.as_str() {
+            "RPAREN" => "MissingExpectedRParen",
+            "ASSIGN" => "MissingExpectedAssign",
+            "LPAREN" => "MissingExpectedLParen",
+            "COMMA" => "MissingExpectedComma",
+            "FSLASH" => "MissingExpectedFSlash",
+            _ => "",
+        };
+        if !kind.is_empty() {
+            out.push(Owed::Err(kind.to_string()));
+        }
+        out.push(Owed::Tok(ty, ch));
+    } else if mode == "ExpectSemiOrEOF" || mode == "MacroDo" {
+        out.push(Owed::Tok("SEMI".into(), "DEFAULT".into()));
+    } else if mode.starts_with("StringExpr") {
+        out.push(Owed::StrExprEnd);
+        out.push(Owed::Err("UnterminatedStringLiteral".into()));
+    } else if mode.starts_with("MacroStrQuotedExpr") || mode.starts_with("MacroCallValue") || mode.starts_with("MacroEval") {
+        let pnl = mode
+            .split("pnl: ")
+            .nth(1)
+            .and_then(|s| s.trim_end_matches([' ', '}']).parse::<u32>().ok())
+            .unwrap_or(0);
+        if pnl > 0 {
+            out.push(Owed::Err("MissingExpectedRParen".into()));
+            for _ in 0..pnl {
+                out.push(Owed::Tok("RPAREN".into(), "DEFAULT".into()));
+            }
+        }
+    }
+    // `MacroNameExpr(_, Some(err))` and `MacroDefName` may add an error of their own; that is not
+    // part of the row checked here
+}
+
+/// Every expectation that is still pending when the input ends is discharged by exactly its
+/// zero-width recovery token (and its error) at the end of input, innermost first; nothing that
+/// was pending is dropped. The pending expectations are read from the hooked end-of-input
+/// snapshot (the mode stack before it is unwound), the discharge from the returned result.
+pub fn check_eoi_recovery(v: &View, ex: &Exec) -> Findings {
+    let mut f = Findings::new();
+    let Some(eoi) = &ex.report.end_of_input else { return f };
+    let n = v.src.len();
+    let mut owed = Vec::new();
+    for m in eoi.modes.iter().rev() {
+        owed_for_mode(m, &mut owed);
+    }
+    // simulate which tokens this appends
+    let mut last = eoi.last_token_type.map(|t| format!("{t:?}"));
+    let mut retyped_last = false;
+    let mut toks: Vec<(String, String)> = Vec::new();
+    let mut errs: Vec<String> = Vec::new();
+    for o in owed {
+        match o {
+            Owed::Tok(t, c) => {
+                last = Some(t.clone());
+                toks.push((t, c));
+            }
+            Owed::StrExprEnd => {
+                if last.as_deref() == Some("StringExprStart") && toks.is_empty() {
+                    retyped_last = true;
+                    last = Some("StringLiteral".into());
+                } else if last.as_deref() == Some("StringExprStart") {
+                    // a start emitted during the unwinding cannot happen: nothing opens there
+                    last = Some("StringLiteral".into());
+                } else {
+                    last = Some("StringExprEnd".into());
+                    toks.push(("StringExprEnd".into(), "DEFAULT".into()));
+                }
+            }
+            Owed::Err(k) => errs.push(k),
+        }
+    }
+    // actual tail, without the final EOF
+    let body = match v.toks.split_last() {
+        Some((eof, rest)) if eof.ty == TokenType::EOF => rest,
+        _ => return f, // C02 reports a missing EOF
+    };
+    if body.len() < toks.len() {
+        f.push(Finding::new("C14.eoi-recovery", "fewer-tokens-than-owed", format!("{} recovery token(s) owed at end of input for {:?}, result has {} token(s)", toks.len(), eoi.modes, body.len())));
+        return f;
+    }
+    let tail = &body[body.len() - toks.len()..];
+    for (t, (ety, ech)) in tail.iter().zip(&toks) {
+        let aty = format!("{:?}", t.ty);
+        let ach = format!("{:?}", t.ch);
+        if &aty != ety || &ach != ech || t.b0 != n || t.b1 != n {
+            f.push(Finding::new(
+                "C14.eoi-recovery",
+                &format!("owed-{ety}"),
+                format!(
+                    "pending at end of input {:?} owes the zero-width tail {:?}; the result ends with {:?}",
+                    eoi.modes,
+                    toks,
+                    tail.iter().map(|t| format!("{:?}/{:?}@{}", t.ty, t.ch, t.b0)).collect::<Vec<_>>()
+                ),
+            ));
+            return f;
+        }
+    }
+    if retyped_last {
+        let before = body.len() - toks.len();
+        if before == 0 || body[before - 1].ty != TokenType::StringLiteral {
+            f.push(Finding::new("C14.eoi-recovery", "owed-StringLiteral", format!("a lone quote at end of input must become a StringLiteral; pending {:?}", eoi.modes)));
+            return f;
+        }
+    }
+    // the owed errors appear, in this order, among the errors reported at the end of input
+    let at_end: Vec<String> = v
+        .errors()
+        .iter()
+        .filter(|e| e.at_byte_offset() as usize == n)
+        .map(|e| format!("{:?}", e.error_kind()))
+        .collect();
+    let mut it = at_end.iter();
+    for k in &errs {
+        if !it.any(|a| a == k) {
+            f.push(Finding::new(
+                "C14.eoi-recovery",
+                &format!("owed-error-{k}"),
+                format!("pending at end of input {:?} owes the errors {:?} at byte {n}; reported there: {:?}", eoi.modes, errs, at_end),
+            ));
+            return f;
+        }
+    }
+    f
+}
